@@ -123,3 +123,12 @@ package results
 //@   at call InsertRelateError#0 before assert[plain-error-goes-through-the-choke-point-unchanged] arg0 == f && arg1 == errType && arg2 == errStr && arg3 == loc
 //@   ensures[goes-through-the-choke-point] hits("InsertRelateError#0") == 1
 //@ end
+
+//@ func (*FileStruct).GetFileHandleErr
+//@   pure
+//@ end
+
+//@ func CreateFileStruct
+//@   props C08
+//@   ensures[fresh-record] result != nil
+//@ end
